@@ -10,6 +10,9 @@ open CssVerif CssVerif.Proto
 /-- acceptance by a translated regular expression; a regex never raises -/
 def accRe (r : Re) (s : Str) : Option Bool := some (accepts r s)
 
+/-- what the driver evaluates (`accRe_fast` in Lemmas: the same function) -/
+def accReFast (r : Re) (s : Str) : Option Bool := some (acceptsFast r s)
+
 /-- `cssutils.profile` after import: all predefined profiles, `_defaultProfiles = None` -/
 def genRegistry : Registry Re :=
   { profiles := Gen.C13.table.map fun e => { name := cps e.1, props := e.2.map fun kv => (cps kv.1, kv.2) },
